@@ -25,7 +25,7 @@ class RecursiveTimedMutex : public RecursiveMutex {
   template <typename Timeout>
   bool TimedWaitHelper(const Timeout& timeout) {
     bool r = true;
-    if (_occupied_count != 0 && _owner_id != fault::Scheduler::GetId()) {
+    while (r && _occupied_count != 0 && _owner_id != fault::Scheduler::GetId()) {
       r = _queue.Wait(timeout) == WaitStatus::Ready;
     }
     YACLIB_DEBUG(r && (_occupied_count != 0 && _owner_id != fault::Scheduler::GetId()),
